@@ -1,14 +1,20 @@
 (* C11 - Raw pixel load/store and iteration round-trip in both data orders.
    Statements only; every proof is `exact <lemma>` from Proofs/Rawdata.v.  Model: Model/Rawdata.v
-   (core/src/pixelcolor/raw/load_store.rs, raw/mod.rs, src/iterator/raw.rs as written, 64-bit usize).
+   (core/src/pixelcolor/raw/load_store.rs, raw/mod.rs, src/iterator/raw.rs as written).
+   The width of usize is a parameter: every theorem of the section below holds for EVERY instance U of the class
+   Usize (usize::MAX >= 65535), in particular usize16, usize32, usize64 (Model/Rawdata.v).
 
    Ranges: bytes_ok buf  = every element of the buffer is a byte (0..255);
-           len_ok buf    = 8 * length <= usize::MAX (any slice below 2 EiB; there `index + 1` and
+           len_ok buf    = 8 * length <= usize::MAX (64 bit: any slice below 2 EiB; there `index + 1` and
                            `len * pixels_per_byte`, unbounded in the model, cannot wrap);
            raw_ok t v    = v < 2^bits (what RawUx::new / from_u32 / into_inner produce);
            indices are non-negative (usize).  The out-of-range theorems need none of these and hold for
            EVERY index, including those whose byte offset index * N leaves usize (checked_mul). *)
 From EG Require Import Base.Prelude Model.Rawdata Proofs.Rawdata.
+From EG Require Model.Imageraw Proofs.Imagebridge.
+
+Section AnyUsize.
+Context {U : Usize}.
 
 (* store then load returns the value; the buffer keeps its length and stays a byte buffer *)
 Theorem C11_load_store : forall t alt v buf i,
@@ -16,6 +22,20 @@ Theorem C11_load_store : forall t alt v buf i,
   exists buf', store t alt v buf i = (buf', true) /\ load t alt buf' i = Some v /\
                buf_len buf' = buf_len buf /\ bytes_ok buf'.
 Proof. exact load_store. Qed.
+
+(* raw_ok is exactly the set of values that exist: new / from_u32 mask into it, load returns it; hence
+   C11_load_store covers every value that can be handed to store, and any u32 round-trips to its masked value *)
+Theorem C11_new_is_raw : forall t x, raw_ok t (raw_new t x).
+Proof. exact raw_new_ok. Qed.
+
+Theorem C11_load_is_raw : forall t alt buf i v,
+  bytes_ok buf -> len_ok buf -> 0 <= i -> load t alt buf i = Some v -> raw_ok t v.
+Proof. exact load_is_raw. Qed.
+
+Theorem C11_load_store_from_u32 : forall t alt x buf i,
+  bytes_ok buf -> len_ok buf -> 0 <= i < pixels_total t (buf_len buf) ->
+  load t alt (fst (store t alt (raw_new t x) buf i)) i = Some (raw_new t x).
+Proof. exact load_store_new. Qed.
 
 (* every other pixel index (inside or outside the buffer) loads what it loaded before *)
 Theorem C11_store_frame : forall t alt v buf i j,
@@ -38,6 +58,15 @@ Theorem C11_byte_is_its_pixels : forall t alt buf k q,
   0 <= k < buf_len buf -> 0 <= q < 8 -> k < pixels_total t (buf_len buf) * bits t / 8 ->
   exists i, 0 <= i < pixels_total t (buf_len buf) /\ owns t alt i k q.
 Proof. exact byte_is_its_pixels. Qed.
+
+(* `owns` really is the set of bits a pixel is read from: two buffers that agree on the bits pixel i owns load the
+   same value at i (together with the closed forms below this ties `owns` to the documented layout) *)
+Theorem C11_load_depends_on_owned_bits : forall t (alt : order) b1 b2 i,
+  bytes_ok b1 -> bytes_ok b2 -> buf_len b1 = buf_len b2 -> len_ok b1 ->
+  0 <= i < pixels_total t (buf_len b1) ->
+  (forall k q, 0 <= q < 8 -> owns t alt i k q -> Z.testbit (byte_at b1 k) q = Z.testbit (byte_at b2 k) q) ->
+  load t alt b1 i = load t alt b2 i.
+Proof. exact load_depends_on_owned_bits. Qed.
 
 (* beyond the buffer: None / Err and no byte changes - for every non-negative index *)
 Theorem C11_load_oob : forall t alt buf i,
@@ -74,6 +103,22 @@ Theorem C11_layout_be : forall t buf i,
   whole_bytes t -> bytes_ok buf -> len_ok buf -> 0 <= i < pixels_total t (buf_len buf) ->
   load t true buf i = Some (be_value buf (i * nbytes t) (nbytes t)).
 Proof. exact layout_be. Qed.
+
+(* what store writes, as closed forms: the field [lo, lo + bits) of the pixel's byte is replaced by v (sub-byte);
+   byte k of the pixel is the k-th least significant byte of v (little endian) / the k-th most significant (big endian) *)
+Theorem C11_store_writes_sub : forall t (alt : order) v buf i,
+  sub_byte t -> bytes_ok buf -> raw_ok t v -> 0 <= i < pixels_total t (buf_len buf) ->
+  let lo := if alt then (i mod ppb t) * bits t else 8 - (i mod ppb t + 1) * bits t in
+  let b := byte_at buf (i / ppb t) in
+  byte_at (fst (store t alt v buf i)) (i / ppb t) = b - ((b / 2 ^ lo) mod 2 ^ bits t) * 2 ^ lo + v * 2 ^ lo.
+Proof. exact store_writes_sub. Qed.
+
+Theorem C11_store_writes_whole : forall t (alt : order) v buf i k,
+  whole_bytes t -> bytes_ok buf -> len_ok buf -> raw_ok t v -> 0 <= i < pixels_total t (buf_len buf) ->
+  0 <= k < nbytes t ->
+  byte_at (fst (store t alt v buf i)) (i * nbytes t + k) =
+  (v / 256 ^ (if alt then nbytes t - 1 - k else k)) mod 256.
+Proof. exact store_writes_whole. Qed.
 
 (* the iterator driven to its first None yields load(index), load(index+1), ... up to the pixel count;
    the fuel of the model's iter_list never runs out *)
@@ -124,7 +169,17 @@ Theorem C11_any_mix_of_next_and_nth : forall t alt ops s l,
   it_ok s -> iter_list t alt s = Some l -> Forall op_ok ops -> iter_run t alt s ops = list_run l ops.
 Proof. exact iter_run_spec. Qed.
 
+End AnyUsize.
+
+(* bridge: the raw load of the ImageRaw model of property C09 (Model/Imageraw.v, indexed by the bit depth, 64-bit usize)
+   is this load at the usize64 instance, so the layout theorems above describe what ImageRaw::pixel and image drawing decode *)
+Theorem C11_raw_load_eq_load : forall t alt buf i,
+  bytes_ok buf -> @len_ok usize64 buf -> 0 <= i -> Imageraw.raw_load (bits t) alt buf i = @load usize64 t alt buf i.
+Proof. exact Imagebridge.raw_load_eq_load. Qed.
+
 (* non-vacuity: the hypotheses are satisfiable and the functions compute the documented values *)
+Section Witness.
+Local Existing Instance usize64.
 Example C11_witness :
   bytes_ok [18; 52; 86] /\ len_ok [18; 52; 86] /\ raw_ok U16 4660 /\
   load U16 true [18; 52; 86] 0 = Some 4660 /\ load U16 false [18; 52; 86] 0 = Some 13330 /\
@@ -142,3 +197,12 @@ Proof.
   split; [vm_compute; congruence|]. split; [vm_compute; split; congruence|].
   repeat split; vm_compute; reflexivity.
 Qed.
+End Witness.
+
+(* the narrower targets: the same model with a 16-bit / 32-bit usize rejects byte offsets beyond ITS usize::MAX *)
+Example C11_witness_16_32 :
+  @load usize16 U32 false [1; 2; 3; 4] 16384 = None /\ @load usize16 U32 false [1; 2; 3; 4] 0 = Some 67305985 /\
+  @load usize32 U16 false [1; 2] 2147483648 = None /\
+  fst (@iter_nth usize16 U8 false (iter_new [5; 6; 7]) 65535) = None /\
+  @iter_run usize16 U8 false (iter_new [5; 6; 7]) [OpNth 1; OpNth 65535; OpNext] = [(Some 6, (1, Some 1)); (None, (0, Some 0)); (None, (0, Some 0))].
+Proof. repeat split; vm_compute; reflexivity. Qed.
